@@ -10,7 +10,8 @@ Record node := {
   n_ppos : pos;           (* producerPosition *)
   n_cpos : pos;           (* consumerPosition *)
   n_prepr : nat;          (* producerRepr *)
-  n_crepr : nat }.        (* consumerRepr *)
+  n_crepr : nat;          (* consumerRepr *)
+  n_site : pos }.         (* sitePosition: the complete position of the node's site, never printed (repair of F56) *)
 
 Record conflict := {
   c_id : nat;             (* identity, for bookkeeping only: the Go code never looks at it *)
@@ -18,7 +19,8 @@ Record conflict := {
   c_nil : list node;      (* nilPath *)
   c_nonnil : list node;   (* nonnilPath *)
   c_func : option nat;    (* enclosing function found by groupConflicts for single-assertion conflicts *)
-  c_test : bool }.        (* involvesTestFile *)
+  c_test : bool;          (* involvesTestFile *)
+  c_src : pos }.          (* sourcePosition: declaration of the object a single-assertion conflict reads nil from (repair of F57) *)
 
 Record range := { r_file : nat; r_from : nat; r_to : nat }.
 
@@ -26,22 +28,23 @@ Record range := { r_file : nat; r_from : nat; r_to : nat }.
 Definition pos_key (p : pos) : option (nat * nat * nat) :=
   if p_valid p then Some (p_file p, p_line p, p_col p) else None.
 
-(* node.String() plus the "@producer position" suffix of pathString *)
-Definition node_key (n : node) : option (nat * nat * nat) * nat * nat * option (nat * nat * nat) :=
+(* node.String() plus the "@producer position" and "@site position" suffixes of pathString *)
+Definition node_key (n : node) : option (nat * nat * nat) * nat * nat * option (nat * nat * nat) * option (nat * nat * nat) :=
   (pos_key (n_cpos n), n_prepr n, n_crepr n,
-   if negb (p_valid (n_cpos n)) && p_valid (n_ppos n) then pos_key (n_ppos n) else None).
+   (if negb (p_valid (n_cpos n)) && p_valid (n_ppos n) then pos_key (n_ppos n) else None),
+   pos_key (n_site n)).
 
 Inductive gkey :=
-  | KPath (l : list (option (nat * nat * nat) * nat * nat * option (nat * nat * nat)))
+  | KPath (l : list (option (nat * nat * nat) * nat * nat * option (nat * nat * nat) * option (nat * nat * nat)))
   | KProd (p : nat * nat * nat) (prepr : nat)            (* producerPosition.String() + ": " + producerRepr *)
-  | KFunc (f : option nat) (prepr crepr : nat).           (* [funcName ":"] producerRepr ";" consumerRepr *)
+  | KFunc (f : option nat) (src : option (nat * nat * nat)) (prepr crepr : nat).   (* [funcName ":"] [source position ": "] producerRepr ";" consumerRepr *)
 
 Definition group_key (c : conflict) : gkey :=
   match c_nil c, c_nonnil c with
   | [], [p] =>
       match pos_key (n_ppos p) with
       | Some k => KProd k (n_prepr p)
-      | None => KFunc (c_func c) (n_prepr p) (n_crepr p)
+      | None => KFunc (c_func c) (pos_key (c_src c)) (n_prepr p) (n_crepr p)
       end
   | _, _ => KPath (map node_key (c_nil c))
   end.
@@ -52,9 +55,9 @@ Definition opt3_eqb (a b : option (nat * nat * nat)) : bool :=
   | Some (x, y, z), Some (x', y', z') => Nat.eqb x x' && Nat.eqb y y' && Nat.eqb z z'
   | _, _ => false
   end.
-Definition nk_eqb (a b : option (nat * nat * nat) * nat * nat * option (nat * nat * nat)) : bool :=
-  let '(a1, a2, a3, a4) := a in let '(b1, b2, b3, b4) := b in
-  opt3_eqb a1 b1 && Nat.eqb a2 b2 && Nat.eqb a3 b3 && opt3_eqb a4 b4.
+Definition nk_eqb (a b : option (nat * nat * nat) * nat * nat * option (nat * nat * nat) * option (nat * nat * nat)) : bool :=
+  let '(a1, a2, a3, a4, a5) := a in let '(b1, b2, b3, b4, b5) := b in
+  opt3_eqb a1 b1 && Nat.eqb a2 b2 && Nat.eqb a3 b3 && opt3_eqb a4 b4 && opt3_eqb a5 b5.
 Fixpoint list_eqb {A} (eqb : A -> A -> bool) (l l' : list A) : bool :=
   match l, l' with
   | [], [] => true
@@ -67,7 +70,7 @@ Definition gkey_eqb (a b : gkey) : bool :=
   match a, b with
   | KPath l, KPath l' => list_eqb nk_eqb l l'
   | KProd p r, KProd p' r' => opt3_eqb (Some p) (Some p') && Nat.eqb r r'
-  | KFunc f p c, KFunc f' p' c' => optnat_eqb f f' && Nat.eqb p p' && Nat.eqb c c'
+  | KFunc f s p c, KFunc f' s' p' c' => optnat_eqb f f' && opt3_eqb s s' && Nat.eqb p p' && Nat.eqb c c'
   | _, _ => false
   end.
 
@@ -122,6 +125,6 @@ Definition involves_test (tf : list nat) (c : conflict) : bool :=
   in_test tf (c_pos c) || existsb (fun n => in_test tf (n_ppos n) || in_test tf (n_cpos n)) (c_nil c ++ c_nonnil c).
 Definition set_test (tf : list nat) (c : conflict) : conflict :=
   {| c_id := c_id c; c_pos := c_pos c; c_nil := c_nil c; c_nonnil := c_nonnil c; c_func := c_func c;
-     c_test := involves_test tf c |}.
+     c_test := involves_test tf c; c_src := c_src c |}.
 Definition diagnostics_tf (grouping : bool) (rs : list range) (excl_test : bool) (tf : list nat) (cs : list conflict) : list diag :=
   diagnostics grouping rs excl_test (map (set_test tf) cs).
